@@ -146,6 +146,11 @@ class Ctx:
             print(out[-3000:])
             self.gate_breaks.append('theorem-file Props/%s.v: %s' % (self.pid, last_error(out)))
             return False
+        if self.tier == 'thorough' and os.environ.get('VERIF_NO_COQCHK') != '1':
+            # independent re-check of the compiled theorem file and everything it depends on; collected in finish()
+            self._coqchk = subprocess.Popen(['timeout', '5400', 'coqchk', '-silent', '-o', '-Q', 'theories', 'LC', 'LC.Props.' + self.pid],
+                                            cwd=COQ, stdout=subprocess.PIPE, stderr=subprocess.STDOUT, text=True)
+            self.cov['checker_cmd'] += ' ; coqchk -silent -o -Q theories LC LC.Props.%s' % self.pid
         # Print Assumptions output
         closed = len(re.findall(r'Closed under the global context', out))
         axioms = set()
@@ -359,7 +364,33 @@ class Ctx:
                        concrete_failing_input=concrete, detail=detail), open(path, 'w'), indent=1)
         self.violations.append(dict(kind=kind, cls=cls, replay=path, concrete=concrete))
 
+    def collect_coqchk(self):
+        p = getattr(self, '_coqchk', None)
+        if p is None:
+            return
+        out, _ = p.communicate()
+        if p.returncode == 124:
+            self.notes.append('coqchk did not finish within 90 min (not counted as a failure; the coqc build is complete)')
+            return
+        if p.returncode != 0:
+            self.gate_breaks.append('coqchk rejects Props/%s.vo: %s' % (self.pid, out[-400:]))
+            return
+        m = re.search(r'\* Axioms:(.*?)\* Constants/Inductives relying on type-in-type:(.*?)\* Constants/Inductives relying on unsafe \(co\)fixpoints:(.*?)\* Inductives whose positivity is assumed:(.*)', out, re.S)
+        if not m:
+            self.gate_breaks.append('coqchk output not understood: ' + out[-300:])
+            return
+        ax = [l.strip() for l in m.group(1).split('\n') if l.strip() and l.strip() != '<none>']
+        bad = [a for a in ax if not any(a.startswith(ok) or ok.endswith(a) or a.split('.')[-1] == ok.split('.')[-1] for ok in ALLOWED_AXIOMS)]
+        for k, name in ((2, 'type-in-type'), (3, 'unsafe fixpoints'), (4, 'assumed positivity')):
+            if m.group(k).strip() != '<none>':
+                self.gate_breaks.append('coqchk: %s: %s' % (name, m.group(k).strip()[:200]))
+        if bad:
+            self.gate_breaks.append('coqchk: axioms outside the allowed list: %s' % bad)
+        self.assumptions.append('coqchk -o (independent checker, whole dependency cone incl. libraries): axioms %s; no type-in-type, '
+                                'unsafe fixpoints or assumed positivity' % (ax or 'none'))
+
     def finish(self):
+        self.collect_coqchk()
         # a broken gate without any concrete failing input is still a violation
         if self.gate_breaks and not any(v['concrete'] for v in self.violations):
             path = os.path.join(BUILD, 'replay', ('re-' if getattr(self, 'replay_mode', False) else '') + '%s-gate.json' % self.pid)
